@@ -31,10 +31,12 @@ class C07(Prop):
             return [Layer("level1 atoms x quantifiers", lambda: self.cases(GP.level1), policies=nat),
                     Layer("level2 binary (4 atoms x 5 quantifiers)", lambda: self.cases(lambda: GP.level2(4, 5)), policies=nat),
                     Layer("level2 groups (3 atoms)", lambda: self.cases(lambda: GP.level2_groups(3)), policies=nat),
+                    Layer("nested groups", lambda: self.cases(GP.nested_groups), policies=nat),
                     Layer("invalid patterns", lambda: (("bad", p) for p in GP.INVALID), policies=nat)]
         ls = [Layer("level1 atoms x quantifiers", lambda: self.cases(GP.level1), policies=nat),
               Layer("level2 binary", lambda: self.cases(GP.level2), policies=nat),
               Layer("level2 groups", lambda: self.cases(GP.level2_groups), policies=nat),
+              Layer("nested groups", lambda: self.cases(GP.nested_groups), policies=nat),
               Layer("invalid patterns", lambda: (("bad", p) for p in GP.INVALID), policies=nat),
               Layer("level3 pruned", lambda: self.cases(GP.level3), policies=nat)]
         return ls
